@@ -175,6 +175,29 @@ func c10Text(c *fw.Ctx, fam string, idx int, text string, viaCLI bool) {
 				return
 			}
 		}
+		// the same text piped through standard input (no file argument): the same errors at the same places
+		if text != "" {
+			in := text
+			r := clidrv.Run(clidrv.Home("home-nobookmarks"), clidrv.Opts{Now: fixedNow, OSStdin: &in, Env: map[string]string{"NO_COLOR": "1"}}, "print")
+			if r.Panicked || r.Code == 0 {
+				c.Violation("cli-stdin-report", cs(), fmt.Sprintf("`klog print` with the text on standard input: exit %d, panic %v\n%s", r.Code, r.PanicVal, r.Stdout))
+				return
+			}
+			if why := c10ParseTerminal(r.Err, serialFacts, ""); why != "" {
+				c.Violation("cli-stdin-report", cs(), fmt.Sprintf("`klog print` with the text on standard input: %s\n%s", why, r.Err))
+				return
+			}
+			r = clidrv.Run(clidrv.Home("home-nobookmarks"), clidrv.Opts{Now: fixedNow, OSStdin: &in}, "json")
+			if r.Panicked || r.Code != 0 {
+				c.Violation("cli-stdin-report", cs(), fmt.Sprintf("`klog json` with the text on standard input failed: exit %d panic %v %s", r.Code, r.PanicVal, r.Err))
+				return
+			}
+			if why := c10ParseJSON(r.Stdout, serialFacts, ""); why != "" {
+				c.Violation("cli-stdin-report", cs(), fmt.Sprintf("`klog json` with the text on standard input: %s\n%s", why, r.Stdout))
+				return
+			}
+			c.Count("stdin_reports", 1)
+		}
 		c.Outcome("via-cli")
 	}
 }
